@@ -1,0 +1,90 @@
+//go:build verif
+
+package x86
+
+import (
+	"github.com/mmcloughlin/avo/operand"
+	"github.com/mmcloughlin/avo/reg"
+)
+
+// Read-only accessors for the unexported instruction form tables. Only built
+// with the "verif" tag; used by the external verification harness.
+
+// VerifOprnd mirrors oprnd.
+type VerifOprnd struct {
+	Type     uint8
+	Implicit bool
+	Action   uint8
+}
+
+// VerifForm mirrors form with table indices resolved to strings where cheap.
+type VerifForm struct {
+	Opcode        string
+	SuffixesClass uint8
+	Features      uint8
+	ISAs          []string
+	Arity         uint8
+	Operands      []VerifOprnd
+}
+
+// VerifMaxOperands returns maxoperands.
+func VerifMaxOperands() int { return maxoperands }
+
+// VerifForms returns a copy of the compiled forms table.
+func VerifForms() []VerifForm {
+	out := make([]VerifForm, 0, len(forms))
+	for i := range forms {
+		f := &forms[i]
+		v := VerifForm{
+			Opcode:        f.Opcode.String(),
+			SuffixesClass: uint8(f.SuffixesClass),
+			Features:      uint8(f.Features),
+			ISAs:          f.ISAs.List(),
+			Arity:         f.Arity,
+		}
+		for _, o := range f.Operands {
+			if o.Type == 0 {
+				break
+			}
+			v.Operands = append(v.Operands, VerifOprnd{Type: o.Type, Implicit: o.Implicit, Action: uint8(o.Action)})
+		}
+		out = append(out, v)
+	}
+	return out
+}
+
+// VerifOpcodeForms returns, per opcode name in table order, the index range
+// [lo,hi) of its forms in VerifForms as recorded in opcformstable.
+func VerifOpcodeForms() map[string][2]int {
+	m := map[string][2]int{}
+	base := 0
+	for i, fs := range opcformstable {
+		m[opc(i+1).String()] = [2]int{base, base + len(fs)}
+		base += len(fs)
+	}
+	return m
+}
+
+// VerifSuffixSets returns the accepted suffix lists of suffix class cls.
+func VerifSuffixSets(cls uint8) [][]string {
+	var out [][]string
+	for s := range sffxscls(cls).SuffixesSet() {
+		out = append(out, append([]string{}, s.Strings()...))
+	}
+	return out
+}
+
+// VerifMatch reports oprndtype(t).Match(op).
+func VerifMatch(t uint8, op operand.Op) bool { return oprndtype(t).Match(op) }
+
+// VerifOprndTypeMax returns oprndtypemax.
+func VerifOprndTypeMax() uint8 { return uint8(oprndtypemax) }
+
+// VerifImplReg returns the register of implicit operand type t (nil when t is
+// not a valid implicit register type).
+func VerifImplReg(t uint8) reg.Register {
+	if implregNone < implreg(t) && implreg(t) < implregmax {
+		return implreg(t).Register()
+	}
+	return nil
+}
